@@ -1,6 +1,7 @@
 package props
 
 import (
+	"encoding/json"
 	"bytes"
 	"fmt"
 	"os"
@@ -22,9 +23,9 @@ func (C17) ID() string    { return "C17" }
 func (C17) Level() string { return "exploration" }
 func (C17) Runs(t core.Tier) int {
 	if t == core.Thorough {
-		return 3_000_000
+		return 10_000_000
 	}
-	return 60_000
+	return 200_000
 }
 func (C17) Rule() string {
 	return "Mode R (2 of 3 runs): stdin content L1..Ln (bytes without newline, lengths 0..10000, optional unterminated tail) is delivered by the simulated reader under a tape-chosen schedule (whole, per line, random cut points, 1-byte chunks, cuts inside lines, chunks and lines >= 4096 bytes, optional transient I/O error at a line boundary, EOF position) while a calc session issues read() from top level, nested calls, loop bodies, generators and zips, within and across statements; oracle: the i-th successful read returns Li (with or without its newline, consistently), no byte lost or duplicated, a read with no complete line left is a runtime read error, every later statement still works; 1 run in 40 repeats the session with the built binary (stdin from a regular file and from a pre-filled pipe). Mode P (1 of 3 runs): sessions exercising toa/write/aton/fromto/elems/indices and wrong argument types/counts, compared statement by statement with the reference model, numeric strings routed through the environment (write -> captured -> fed back as stdin -> read -> aton). Mode P is ordinary assertion, not schedule search. Non-trivial = >= 2 reads with a chunk boundary inside a line or several lines in one chunk (R); distinct = hash of line lengths, chunking, fault plan and read placements."
@@ -651,5 +652,39 @@ done:
 	r.Interleaving = 0
 	r.TraceHash = uint64(trace)
 	r.Sample = h
+	return r
+}
+
+// RunScript: steps run in script flavour with Stdin delivered whole (simulated reader and
+// os.Stdin file); the concatenated write() output must equal Want[0].
+func (C17) RunScript(raw json.RawMessage) core.Result {
+	var r core.Result
+	sc, h, err := parseScript(raw)
+	if err != nil || len(sc.Want) != 1 {
+		r.Discard = "bad script"
+		return r
+	}
+	s := sess.New()
+	sim := &sess.SimStdin{}
+	sim.Feed([]byte(sc.Stdin))
+	sess.UseStdin(sim)
+	restore := sess.UseRealStdinFile([]byte(sc.Stdin))
+	defer restore()
+	got := ""
+	for _, src := range sc.Steps {
+		for _, o := range s.Submit(src+"\n", sc.Flavour == "repl") {
+			if o.Kind == sess.KPanic {
+				r.Violation = panicViolation("panic", o, h)
+				return r
+			}
+			got += o.Out
+			if o.Kind == sess.KError {
+				got += "<" + o.Err + ">"
+			}
+		}
+	}
+	if got != sc.Want[0] {
+		r.Violation = &core.Violation{Clause: "R.line-content", Detail: fmt.Sprintf("printed %q, want %q", got, sc.Want[0]), History: h}
+	}
 	return r
 }
